@@ -20,7 +20,7 @@ func c09Build() []fsx.Op {
 		{K: "MKDIR", H: "root", N: "d"},
 		{K: "WRITE", H: "root/a", Off: 0, Cnt: 4096, Pat: 0x11, Stable: 2},
 		{K: "WRITE", H: "root/a", Off: 7 * 4096, Cnt: 4096, Pat: 0x12, Stable: 2},
-		{K: "CREATEMANY", H: "root/d", N: "e", Cnt: 30}, // fills the first block of d (32 entries)
+		{K: "CREATEMANY", H: "root/d", N: "e", Cnt: 30},                          // fills the first block of d (32 entries)
 		{K: "WRITE", H: "root/a", Off: 700 * 4096, Cnt: 1, Pat: 0x13, Stable: 2}, // sparse: a 700-block hole
 		{K: "CREATE", H: "root/d", N: "x"},
 		{K: "FILL"},
@@ -38,8 +38,8 @@ func c09Candidates() []fsx.Op {
 		{K: "CREATE", H: "root", N: long}, {K: "MKDIR", H: "root", N: long}, {K: "SYMLINK", H: "root", N: long, Target: "t"},
 		{K: "CREATE", H: "root/d", N: "new"}, {K: "MKDIR", H: "root", N: "nd"}, {K: "MKDIR", H: "root/d", N: "nd"}, {K: "SYMLINK", H: "root", N: "ns", Target: "target"},
 		{K: "WRITE", H: "root/a", Off: 4096, Cnt: 3 * 4096, Pat: 0x21, Stable: 2},
-		{K: "WRITE", H: "root/a", Off: 8 * 4096, Cnt: 10, Pat: 0x22, Stable: 2},             // needs an indirect block and a data block
-		{K: "WRITE", H: "root/a", Off: (8 + 512) * 4096, Cnt: 10, Pat: 0x23, Stable: 2},     // double-indirect: three blocks
+		{K: "WRITE", H: "root/a", Off: 8 * 4096, Cnt: 10, Pat: 0x22, Stable: 2},         // needs an indirect block and a data block
+		{K: "WRITE", H: "root/a", Off: (8 + 512) * 4096, Cnt: 10, Pat: 0x23, Stable: 2}, // double-indirect: three blocks
 		{K: "WRITE", H: "root/a", Off: 100, Cnt: 5 * 4096, Pat: 0x24, Stable: 0},
 		{K: "WRITE", H: "root/a", Off: 0, Cnt: 4096 * 511, Len: 4096, Pat: 0x25, Stable: 2}, // oversized count
 		{K: "SETATTR", H: "root/a", Size: maxFile + 1},
@@ -48,7 +48,7 @@ func c09Candidates() []fsx.Op {
 		{K: "READ", H: "root/a", Off: 4096, Cnt: 6 * 4096}, // hole-filling read without space
 		// transactions that fail only at commit because they exceed the journal (large disk)
 		{K: "READ", H: "root/a", Off: 8 * 4096, Cnt: 600 * 4096},                  // materialises 600 hole blocks at once
-		{K: "SYMLINK", H: "root", N: "biglink", Target: nameOfLen(520*4096, 't')},  // a 520-block link target
+		{K: "SYMLINK", H: "root", N: "biglink", Target: nameOfLen(520*4096, 't')}, // a 520-block link target
 		{K: "SETATTR", H: "root/a", Size: 3, Mtime: 5},
 	}
 }
